@@ -77,3 +77,72 @@ def c05(ctx):
 def c09(ctx):
     verify_family(ctx, ["MCVerify_quick.cfg"])
     finish(ctx, VERIFY_RULE + "; plus direct calls of isSmallOrderVartime", ASSUME_COMMON)
+
+
+# ---------------------------------------------------------------- batch family
+
+def batch_class(ev):
+    if ev.get("op") != "batch":
+        return ev.get("op")
+    bad = sorted(set(k for k in ev.get("kinds", []) if k != "honest"))
+    n = ev["n"]
+    size = "n=%d" % n if n <= 5 else ("n~%d" % (64 * (n // 64)) + ("+%d" % (n % 64) if n % 64 else ""))
+    return "%s|zip=%s|%s|ent=%s|pre=%s|bad=%s" % (size, ev["zip"], ev["variant"], ev["entropy"], ev["pre"], ",".join(bad))
+
+
+def batch_family(ctx, mc_cfg):
+    model_check(ctx, "MCBatch.tla", mc_cfg, timeout=3000)
+    cases = gen_cases(ctx, "BatchCases", "batch_cases.ndjson")
+    drv = build_driver(ctx)
+    trace = os.path.join(ctx.work, "batch.ndjson")
+    out = run_driver(ctx, drv, "batch", trace, cases=cases, extra=["-shards", "6"])
+    ctx.log("driver:", out.strip())
+    import glob
+    shards = sorted(glob.glob(trace + ".*"))
+    mism = validate_trace(ctx, "TraceBatch.tla", "TraceBatch.cfg", trace, presharded=shards, classify=batch_class)
+    report_mismatches(ctx, mism)
+
+
+BATCH_RULE = ("abstract batch cases enumerated by TLC from spec/BatchCases.tla (sizes 0..5, 63..69, 127..131, 200 x chunk-structure positions x 20 kinds of badness "
+              "x variants x modes, pairs of bad entries, all-valid batches with random/zero/all-ones entropy, failing/short entropy, option errors) instantiated with seeded honest "
+              "entries and mutations; each VerifyBatch call is recorded with the hook events of the real code and replayed by TLC through Batch.tla with the real constants "
+              "(4, 64): hook sequence, result vector, summary flag, per-entry equality with the spec's Single and with the real single verifier; the chunk equation is predicted "
+              "exactly from the logged 128-bit randomisers; a class is (size class, mode, variant, entropy, pre-condition, kinds of bad entries)")
+
+
+@check("C06")
+def c06(ctx):
+    batch_family(ctx, "MCBatch_quick.cfg" if not ctx.thorough else "MCBatch_thorough.cfg")
+    finish(ctx, BATCH_RULE, ASSUME_COMMON + ["a batch entry whose discrete log is unknown (bit-flipped key/R) is assumed not to cancel in the randomised sum (probability 2^-128)"])
+
+
+def heap_class(ev):
+    steps = len(ev.get("hevs", []))
+    return "%s|%s|count=%s|steps~%d" % (ev.get("via"), ev.get("flavour"), ev.get("count"), 1 << max(0, steps.bit_length() - 1))
+
+
+@check("C17")
+def c17(ctx):
+    import glob
+    model_check(ctx, "MCBosCoster.tla", "MCBosCoster_quick.cfg" if not ctx.thorough else "MCBosCoster_thorough.cfg", timeout=3000)
+    model_check(ctx, "MCBatch.tla", "MCBatch_quick.cfg")
+    drv = build_driver(ctx)
+    # (a) Bos-Coster steps of the real code, through VerifyBatch and by direct calls
+    htrace = os.path.join(ctx.work, "heap.ndjson")
+    out = run_driver(ctx, drv, "heap", htrace, extra=["-shards", "6"])
+    ctx.log("heap driver:", out.strip())
+    mism = validate_trace(ctx, "TraceBosCoster.tla", "TraceBosCoster.cfg", htrace, presharded=sorted(glob.glob(htrace + ".*")),
+                          classify=heap_class, timeout=6000)
+    report_mismatches(ctx, mism)
+    # (b) all-valid batches of every size: equation TRUE in every chunk, no fallback event
+    cases = gen_cases(ctx, "BatchCases", "batch_cases.ndjson")
+    btrace = os.path.join(ctx.work, "batch.ndjson")
+    out = run_driver(ctx, drv, "batch", btrace, cases=cases, extra=["-shards", "6"])
+    ctx.log("batch driver:", out.strip())
+    mism = validate_trace(ctx, "TraceBatch.tla", "TraceBatch.cfg", btrace, presharded=sorted(glob.glob(btrace + ".*")), classify=batch_class)
+    report_mismatches(ctx, mism)
+    finish(ctx, "Bos-Coster: every iteration of multiScalarmultVartime recorded by the heap hook (through VerifyBatch for chunk sizes 4..69 incl. multi-chunk calls, and by direct calls "
+           "with scalar/point flavours: generic, mixed-order, torsion-only, repeated, zero randomisers, all zero, ones, equal scalars, top slice, common factors, maximal randomisers) "
+           "replayed by TLC through BosCoster.tla on the real scalars; result compared with the exact sum. Fallback counter: all-valid batches (BatchCases.AllValid: sizes 0..70, 126..132, 191..257; "
+           "random / all-zero / all-ones entropy) validated through Batch.tla: Equation(1) and no Fallback event in every chunk. " + BATCH_RULE,
+           ASSUME_COMMON + ["inputs the spec flags design-inexact (pending non-zero 128-bit scalars at loop exit, remainder above limb128bits) are excluded from the exactness claim as in the property text"])
